@@ -73,3 +73,15 @@ Proof.
   - apply in_map_iff in H as (a & <- & _). eauto.
 Qed.
 Print Assumptions C01_params_nonempty_items.
+
+(** Identifier capture: the index and element variables of a slice copy loop differ from
+    the variable the assigned expression starts with, whatever the user called it. *)
+Theorem C01_loop_variables_do_not_capture :
+  forall lhs, fst (loop_vars lhs) <> until_dot lhs /\ snd (loop_vars lhs) <> until_dot lhs.
+Proof.
+  intros lhs. unfold loop_vars.
+  destruct (str_eqb (until_dot lhs) (s2b "i")) eqn:Ei; destruct (str_eqb (until_dot lhs) (s2b "e")) eqn:Ee; cbn [fst snd];
+    try (apply str_eqb_eq in Ei; rewrite Ei); try (apply str_eqb_eq in Ee; rewrite Ee); split; try discriminate.
+  all: intros H; rewrite <- H in *; vm_compute in Ei, Ee; discriminate.
+Qed.
+Print Assumptions C01_loop_variables_do_not_capture.
